@@ -265,7 +265,7 @@ def check(tier: str, seed: int) -> Result:
     else:
         progs = gen.programs(ALPHA_FULL, [1, 2, 3])
         dets = lambda i: DETAILS  # noqa: E731
-    progs = list(progs) + list(SAME_FAMILY_PROGS)
+    progs = list(progs) + list(SAME_FAMILY_PROGS) + list(gen.MENU_PROGS)
     jobs = [(p, dets(i)) for i, p in enumerate(sorted(set(progs)))]
     jobs = core.seeded_order(jobs, seed)
     viols: List[Violation] = []
